@@ -181,9 +181,62 @@ class TT:
             return [], [(w2, val, st) for w2, val in self.eval_multi(fn, st.value, w, depth)]
         if isinstance(st, ast.Raise):
             return [], []
+        if isinstance(st, ast.Expr) and isinstance(st.value, ast.Call) and isinstance(st.value.func, ast.Attribute) \
+                and st.value.func.attr in ("append", "extend") and isinstance(st.value.func.value, ast.Name) \
+                and len(st.value.args) == 1 and self._is_seq(w.env.get(st.value.func.value.id)):
+            # a list filled element by element
+            name = st.value.func.value.id
+            out = []
+            for w2, val in self.eval_multi(fn, st.value.args[0], w, depth):
+                w3 = w2.fork()
+                items = list(w3.env[name][1])
+                if st.value.func.attr == "append":
+                    items.append(val)
+                elif self._is_seq(val):
+                    items += list(val[1])
+                else:
+                    raise Undecided(f"statement `{U(st)[:40]}`")
+                w3.env[name] = ("list", items)
+                out.append(w3)
+            return out, []
+        if isinstance(st, ast.For) and not any(isinstance(n, (ast.Break, ast.Continue)) for n in ast.walk(st)):
+            items = self._iter_items(fn, st.iter, w)
+            if items is None:
+                raise Undecided(f"loop over `{U(st.iter)[:40]}`")
+            worlds, rets = [w], []
+            for it in items:                       # unrolled: the collections of the table have two or three members
+                nxt = []
+                for w2 in worlds:
+                    w3 = w2.fork()
+                    self.bind(st.target, it, w3)
+                    falls, r = self.exec_block(fn, st.body, [w3], depth)
+                    nxt += falls
+                    rets += r
+                worlds = nxt
+            falls, r = self.exec_block(fn, st.orelse, worlds, depth)
+            return falls, rets + r
         if isinstance(st, ast.Expr):
             return [w2 for w2, _ in self.eval_multi(fn, st.value, w, depth)], []
         raise Undecided(f"statement `{U(st)[:40]}`")
+
+    @staticmethod
+    def _is_seq(v):
+        return isinstance(v, tuple) and len(v) == 2 and v[0] in ("tuple", "list")
+
+    def _iter_items(self, fn, it, w):
+        """the members a `for` statement runs over: the subshapes / boundary curves of the composite operand, or a
+        collection built before"""
+        if isinstance(it, ast.Call) and isinstance(it.func, ast.Name) and it.func.id in ("tuple", "list", "iter", "reversed") \
+                and len(it.args) == 1:
+            inner = self._iter_items(fn, it.args[0], w)
+            return None if inner is None else (list(reversed(inner)) if it.func.id == "reversed" else inner)
+        if isinstance(it, ast.Attribute) and it.attr in ("subshapes", "jordans") and isinstance(it.value, ast.Name) \
+                and w.env.get(it.value.id) == self.A and self.cls in ("ConnectedShape", "DisjointShape") and fn is self.fn:
+            return list(self.subs) if it.attr == "subshapes" else [("curve", cv) for cv in self.curvs]
+        v = self.try_expr(fn, it, w)
+        if self._is_seq(v):
+            return list(v[1])
+        return None
 
     def bind(self, target, val, w):
         if isinstance(target, ast.Name):
@@ -1175,13 +1228,25 @@ def _filled_only_from_pops(loop, name, shrink):
     return True
 
 
+def _loop_witness_sizes(fn, loop, ctx=None):
+    """the catalogue of ranking idioms first; when none applies, the size-bound analysis (verifkit/sizes.py)"""
+    kind, txt = loop_witness(fn, loop, ctx)
+    if kind:
+        return kind, txt
+    from verifkit import sizes
+    ok, why = sizes.while_progress(loop)
+    if ok:
+        return "size-bound", why
+    return kind, txt
+
+
 def r01_4(ctx):
     out = Outcome("R01.4", "termination: every while loop has a ranking witness (counter to a bound, shrinking "
                            "collection, visited-set growth) and every recursion decreases its argument", floor=4)
     for q, fn in sorted(ctx.model.funcs.items()):
         for n in ast.walk(fn.node):
             if isinstance(n, ast.While):
-                kind, txt = loop_witness(fn, n, ctx)
+                kind, txt = _loop_witness_sizes(fn, n, ctx)
                 if kind:
                     out.ok(q, f"while `{U(n.test)[:40]}`: {kind}", where=fn.where(n), detail=txt)
                 else:
@@ -1192,6 +1257,11 @@ def r01_4(ctx):
         if q in g.callees(q):
             fn = ctx.model.funcs[q]
             ok, txt = _recursion_decreases(fn)
+            if not ok:
+                from verifkit import sizes
+                ok2, txt2 = sizes.recursion_decreases(fn)
+                if ok2:
+                    ok, txt = True, txt2
             (out.ok if ok else out.bad)(q, "direct recursion: " + ("argument strictly smaller" if ok else
                                                                    "no decreasing argument recognised"),
                                         where=fn.where(), detail=txt)
@@ -1403,4 +1473,21 @@ def r01_8(ctx):
     return out
 
 
-RULES = [r01_1, r01_2, r01_3, r01_4, r01_5, r01_6, r01_7, r01_8]
+def r01_9(ctx):
+    from rules import C10
+    o = C10.r10_1(ctx)
+    o.rule = "R01.9"
+    o.text = ("no operator reads a bounding box or an orientation cached before an operand was transformed in place: every lazily cached quantity is reset by each write to the state it is derived from (same analysis as R10.1)")
+    return o
+
+
+def r01_10(ctx):
+    from rules import C06
+    o = C06.r06_4(ctx)
+    o.rule = "R01.10"
+    o.text = ("the curves of a result are assembled into the right components: grouped by mutual containment, the curve "
+              "of largest |area| seeding each component, on worlds nested up to four levels (same analysis as R06.4)")
+    return o
+
+
+RULES = [r01_1, r01_2, r01_3, r01_4, r01_5, r01_6, r01_7, r01_8, r01_9, r01_10]
